@@ -34,7 +34,7 @@ def validate(rep, trace, name, mask):
         events = read_trace(trace)
         gen_bad = [(i, c) for i, c in bad if c & CODE_GENERATOR]
         if gen_bad:
-            raise ToolError("harness could not build an instruction through the public API (event %d of %s)" % (gen_bad[0][0], trace))
+            raise ToolError("an input is not what it claims (the harness could not build an instruction through the public API, or the binary does not parse - by Parser.tla - to the instructions it was made from): event %d of %s; an error of the input generator, not a verdict" % (gen_bad[0][0], trace))
         for idx, code in bad:
             if code & mask:
                 e = events[idx - 1]
